@@ -166,3 +166,23 @@ Definition canon_reply (r : reply) : list Z :=
 Definition run_check (c : Z * Z * Z * Z * Z) : list Z :=
   let '(chunk, size, start, length, bs) := c in
   canon_reply (check_trace chunk size start length bs).
+
+(* ---- algorithm selection --------------------------------------------------------------- *)
+(* for x in alg_list: if x in _hash_class: algname = x; break   else: status FAILURE.
+   Names are numbers here (md5 = 1, sha1 = 2, anything else >= 10); `sup` is the server's table
+   (gen_supported for the source), `req` the client's preference list. *)
+Definition first_supported (sup req : list Z) : option Z :=
+  find (fun x => existsb (Z.eqb x) sup) req.
+
+(* case: (supported, requested, (chunk, size, start, length, block_size));
+   output: the algorithm named in the reply, then the trace - or the status *)
+Definition run_check_alg (c : list Z * list Z * (Z * Z * Z * Z * Z)) : list Z :=
+  let '(sup, req, q) := c in
+  match first_supported sup req with
+  | None => [-1; SFTP_FAILURE]          (* "No supported hash types found" *)
+  | Some a =>
+      match run_check q with
+      | (-1) :: r => (-1) :: r
+      | t => a :: t
+      end
+  end.
